@@ -170,7 +170,7 @@ type unit struct {
 	reps  int
 }
 
-const nFixed = 4
+const nFixed = 6
 
 func units(c *run.Ctx) []unit {
 	nh := c.Pick(44, 240)
@@ -214,7 +214,7 @@ func runAll(c *run.Ctx) {
 		shape := ""
 		if u.fixed {
 			r = run.NewRng(77, 19, uint64(u.hist))
-			shape = []string{"deepchain", "forks", "mine", "bgsign"}[u.hist%4]
+			shape = []string{"deepchain", "forks", "mine", "bgsign", "lateconfirms", "lateconfirms"}[u.hist%6]
 		} else {
 			r = run.NewRng(c.Seed, 19, uint64(u.hist))
 		}
